@@ -252,7 +252,10 @@ NoCredsBeforeTrust  == [][credsSent' => phase = "accepted"]_vars
 Emitted ==
     (Emit /\ phase \in {"accepted", "rejected"}) =>
         PrintT(<<"case", lines, port, mode, cbKey, cbCA, pres, TrustRule,
-                 Discriminates>>)
+                 Discriminates,
+                 \* the sets the lookup yields, for known_hosts given as
+                 \* key lists / as a callable instead of as file content
+                 TrustedKeys("none"), TrustedCAs("none"), Revoked("none")>>)
 
 NeverAccepted == phase # "accepted"
 NeverFallbackAccept == ~(phase = "accepted" /\ Fallback("none"))
